@@ -134,14 +134,14 @@ def _rename_expr(e, vmap, fmap):
     return out
 
 
-def expr(vars_, first, prior, depth):
+def expr(vars_, first, prior, depth, feature=None):
     """expression over variable names `vars_` (vars_[0] == first = the separation-like
     variable); prior = list of earlier custom forms (name, nparams) callable from here.
     The underlying strategy is built once per shape and cached; names are substituted."""
     assert vars_[0] == first
     ph_vars = tuple("V%d" % i for i in range(len(vars_)))
     ph_prior = tuple(("F%d" % i, n) for i, (_, n) in enumerate(prior))
-    base = _expr_cached(ph_vars, ph_prior, depth)
+    base = _expr_cached(ph_vars, ph_prior, depth, feature)
     vmap = dict(zip(ph_vars, vars_))
     fmap = dict(("F%d" % i, nm) for i, (nm, _) in enumerate(prior))
     return base.map(lambda e: _rename_expr(e, vmap, fmap))
@@ -151,11 +151,14 @@ import functools
 
 
 @functools.lru_cache(maxsize=None)
-def _expr_cached(vars_, prior, depth):
-    return _expr(list(vars_), vars_[0], list(prior), depth)
+def _expr_cached(vars_, prior, depth, feature=None):
+    return _expr(list(vars_), vars_[0], list(prior), depth, feature)
 
 
-def _expr(vars_, first, prior, depth):
+FEATURES = ["arith", "func", "if", "pymath", "as", "custom"]
+
+
+def _expr(vars_, first, prior, depth, feature=None):
     var = st.sampled_from(vars_).map(lambda n: {"o": "var", "n": n})
     rvar = st.just({"o": "var", "n": first})
     leaf = st.one_of(var, rvar, _num_expr())
@@ -221,8 +224,11 @@ def _expr(vars_, first, prior, depth):
                            "exponential", "sqrt", "zbl", "tang_toennies", "exp_spline", "zero"]).flatmap(
         lambda nm: st.tuples(sep_like, form_params(nm)).map(
             lambda t: {"o": "as", "f": nm, "args": [t[0]] + [{"o": "num", "v": p} for p in t[1]]}))
-    opts = [binop("+"), binop("-"), binop("*"), div, power, bounded_exp, call1, call_pos, mm, iff, pym, asf,
-            sub.map(lambda e: {"o": "neg", "a": e})]
+    groups = {
+        "arith": st.one_of(binop("+"), binop("-"), binop("*"), div, power, sub.map(lambda e: {"o": "neg", "a": e})),
+        "func": st.one_of(bounded_exp, call1, call_pos, mm),
+        "if": iff, "pymath": pym, "as": asf, "leaf": leaf,
+    }
     if prior:
         def mkcall(t):
             (name, npar), a0, rest = t
@@ -234,21 +240,37 @@ def _expr(vars_, first, prior, depth):
         # two calls of one shared sub-form with different arguments in a single formula
         cc2 = st.tuples(cc, cc, st.sampled_from(["+", "-", "*"])).map(
             lambda t: {"o": t[2], "a": t[0], "b": t[1]})
-        opts.extend([cc, cc2])
-    return st.one_of(leaf, *opts)
+        groups["custom"] = st.one_of(cc, cc2, cc2)
+    # the construct at the top of an expression is chosen explicitly (uniformly over the
+    # feature groups): left to a flat one_of, Hypothesis' novelty search was measured to
+    # produce 'if' and 'as.*' calls in < 3 % of formulas
+    if feature is not None:
+        # the construct at the top is forced (stratified generation); 'custom' needs prior forms
+        return groups.get(feature, groups["arith"])
+    names = sorted(groups)
+    if prior:
+        names = names + ["custom", "custom"]
+    return st.sampled_from(names).flatmap(lambda n: groups[n])
 
 
 @st.composite
-def custom_forms(draw, max_forms=3, depth=2, min_forms=0):
-    n = draw(st.integers(min_forms, max_forms))
+def custom_forms(draw, max_forms=3, depth=2, min_forms=0, last_feature=None):
+    """list of custom forms in DAG order; with last_feature the formula of the last form
+    has that construct at its top (and at least two forms exist when it is 'custom')"""
+    if last_feature == "custom":
+        min_forms = max(min_forms, 2)
+    elif last_feature is not None:
+        min_forms = max(min_forms, 1)
+    n = draw(st.integers(min_forms, max(max_forms, min_forms)))
     names = draw(st.permutations(FORM_NAMES))[:n]
     forms = []
-    for nm in names:
+    for i, nm in enumerate(names):
         first = draw(st.sampled_from(FIRST_PARAM))
         npar = draw(st.integers(0, 3))
         ps = draw(st.permutations(PARAM_POOL))[:npar]
         prior = [(f["name"], len(f["params"])) for f in forms]
-        e = draw(expr([first] + list(ps), first, prior, depth))
+        feat = last_feature if i == n - 1 else None
+        e = draw(expr([first] + list(ps), first, prior, depth, feat))
         forms.append({"name": nm, "params": [first] + list(ps), "expr": e})
     return forms
 
@@ -373,8 +395,9 @@ def potdef(depth=2, customs=(), tables=(), max_ranges=3, leaf_names=None, analyt
 def _potdef_cached(depth, has_custom, has_table, max_ranges, leaf_names, allow_spline, allow_pow):
     leaves = [form_leaf(list(leaf_names) if leaf_names else None)]
     if has_custom:
-        leaves.append(st.tuples(st.integers(0, 7), st.lists(number(0.2, 4), min_size=3, max_size=3)).map(
-            lambda t: {"k": "custom", "idx": t[0], "p": t[1]}))
+        cl = st.tuples(st.integers(0, 7), st.lists(number(0.2, 4), min_size=3, max_size=3)).map(
+            lambda t: {"k": "custom", "idx": t[0], "p": t[1]})
+        leaves.extend([cl, cl])
     if has_table:
         leaves.append(st.integers(0, 7).map(lambda i: {"k": "table", "idx": i}))
     leaf = st.one_of(*leaves)
